@@ -202,7 +202,9 @@ fn step_options(with_newgame: bool) -> Vec<Vec<String>> {
 }
 
 pub fn run(tier: &str, seed: u64, out: &str, exe: &str) {
-    let rep = Report::new("C03", tier, seed);
+    let mut rep = Report::new("C03", tier, seed);
+    // every violation is replayed twice on the real binary (up to the horizon each): a handful is evidence enough
+    rep.max_violations = 6;
     let thorough = tier == "thorough";
     let runs = AtomicU64::new(0);
     let gos = AtomicU64::new(0);
